@@ -69,7 +69,8 @@ PROPS = {
    oracle_for_stage={"compile": ["reread"]},
    corpus=["compile.txt"], tables=["Gen/Tables.v: builtin_idents"]),
  "C07": dict(
-   corr=[("prog", "parse", 4000, 200000), ("expr", "parse", 3000, 150000), ("prog-flat", "parse", 2000, 100000), ("pipes", "parse", 1500, 75000), ("joins", "parse", 1500, 75000)],
+   corr=[("prog", "parse", 4000, 200000), ("expr", "parse", 3000, 150000), ("prog-flat", "parse", 2000, 100000), ("pipes", "parse", 1500, 75000), ("joins", "parse", 1500, 75000),
+         ("prog", "gram", 4000, 200000), ("expr", "gram", 3000, 150000), ("prog-mut", "gram", 4000, 200000), ("joins", "gram", 1500, 75000), ("bytes-rand", "gram", 3000, 150000), ("bytes-exh-3", "gram", 0, 0), ("deep", "gram", 200, 10000)],
    oracle=[("expr", "oracle-C07", 3000, 150000), ("prog", "oracle-C07", 2000, 100000), ("prog-mut", "oracle-C07", 2000, 100000), ("joins", "oracle-C07", 1000, 50000)],
    oracle_for_stage={"parse": ["oracle-C07", "oracle-C08"]},
    corpus=["parse.txt"], tables=["Gen/Tables.v: op_prec, keywords, join_types"]),
